@@ -128,10 +128,11 @@ pub fn run(a: &Args, out: &mut impl Write) {
         let os: Vec<String> = outs.iter().map(|o| if o.is_empty() { "-".to_string() } else { o.clone() }).collect();
         writeln!(out, "cnt {} {} {} | {} exit={}", n, t, ss.join("/"), os.join("/"), ex).unwrap();
     }
-    if a.tier_thorough {
-        // 16-thread hammer on one site
-        let n = 64usize;
-        let per = 6250usize;
+    {
+        // 16-thread hammer on one site (short in the quick tier): a non-atomic counter update
+        // loses increments here within milliseconds
+        let n = if a.tier_thorough { 64usize } else { 6 };
+        let per = if a.tier_thorough { 62500usize } else { 4000 };
         let scripts: Vec<Vec<bool>> = (0..16).map(|_| vec![true; per]).collect();
         let (outs, ex) = lifetime(n, &scripts);
         let admitted: usize = outs.iter().map(|o| o.matches('o').count()).sum();
